@@ -15,6 +15,7 @@ open PdModel.Syncer PdModel.HistoryBuf PdModel.Spec
 #print axioms merged_broadcast_exact
 #print axioms leaderPutsMsgs_square
 #print axioms broadcast_follower_eq_leader
+#print axioms failed_save_keeps_cache
 #print axioms full_sync_unfixed_counterexample
 #print axioms history_sections_locked
 #print axioms C16.checkRecordsFrom_iff
